@@ -39,7 +39,9 @@ func (ex *Exec) step(instr ssa.Instruction) {
 	case *ssa.Store:
 		p := ex.ptrOf(ex.val(x.Addr), x.Pos())
 		v := ex.val(x.Val)
+		ex.anchorArgTypes = []types.Type{x.Val.Type()}
 		ex.fire(true, "store", chanName(x.Addr), nil, []Value{v}, nil, x.Pos()) // `before store x.f: …`
+		ex.anchorArgTypes = nil
 		ex.checkWrite(p, x.Pos())
 		ex.store(p, ex.coerce(v, typeAtPath(p.Root, p.Path)))
 		ex.anchorsAfterStore(x, p)
